@@ -47,6 +47,8 @@ def shape_term(rnd, name, lo, hi, kinds=None, d=3, kind=None, degenerate=True):
         p = list(two())
     elif k in ("Rectangle", "SShape", "ZShape"):
         p = sorted(two())
+        if degenerate and k != "Rectangle" and rnd.random() < 0.12:
+            p[1] = p[0]  # vertical edge: a step function
     elif k == "Bell":
         p = [g(), pos(), rnd.choice([1.0, 2.0, 3.0, 0.5])]
     elif k == "Binary":
@@ -77,6 +79,10 @@ def shape_term(rnd, name, lo, hi, kinds=None, d=3, kind=None, degenerate=True):
                     v = [lo, lo + unit, lo + 2 * unit, lo + 3 * unit]
         if degenerate and rnd.random() < 0.2:
             v[2] = v[1]
+        if degenerate and rnd.random() < 0.12:
+            v[1] = v[0]  # vertical left edge
+        if degenerate and rnd.random() < 0.12:
+            v[2] = v[3]  # vertical right edge
         p = v
     elif k == "Trapezoid":
         v = sorted(g() for _ in range(4))
